@@ -3,52 +3,9 @@ From Coq Require Import Reals ZArith List Bool Lra Lia String.
 From PyLib Require Import PyVal PyBuiltins Ideal IdealFacts Whnf PyEval Sphere.
 From Spec Require Import AngleSpec Precession.
 From Gen Require Import M_base M_Angle M_Epoch M_Coordinates.
-From Proofs.C06 Require Import C06_angle.
+From Proofs.C06 Require Import C06_angle C06_tac.
 Import ListNotations.
 Open Scope R_scope.
-
-From Ltac2 Require Ltac2.
-Ltac2 Set Whnf.is_blocked := fun c =>
-  Ltac2.List.exist (Ltac2.Constr.equal c)
-    ['@bind; 'Rltb; 'Rleb; 'Reqb; 'Rfloor; 'Rtrunc; 'Rround; 'is_int; 'Rfmod; 'Rround_nd;
-     'Rlit; 'atan2; 'Rpow; 'pow10; 'Rabs; 'sqrt; 'sin; 'cos; 'tan; 'asin; 'acos; 'atan;
-     'exp; 'ln; 'Rpower; 'powerRZ; 'IZR; 'PI;
-     '@Angle_reduce_deg; '@fmod_py; '@Angle_dms2deg; '@Angle___init__; '@g_JDE2000].
-
-Lemma Angle_new_rad_kw x :
-  Angle___init__ Rops blankA (VTuple [VFloat x]) (VDict [kw "radians" (VBool true)])
-  = ang (red360 (r2d x)).
-Proof. exact (Angle_new_rad x). Qed.
-
-Ltac hook2 tac s :=
-  lazymatch s with
-  | Angle_reduce_deg _ (VFloat ?x) =>
-      first [ rewrite (reduce_deg_small x) by (expose_R; tac) | rewrite (reduce_deg_eq x) ]
-  | fmod_py _ ?a ?y => rewrite (fmod_py_nonneg a y) by (expose_R; tac)
-  | Angle_dms2deg _ (VInt 0) (VInt 0) (VFloat ?x) => rewrite (dms2deg_sec x)
-  | Angle___init__ _ _ (VTuple [VInt 0; VInt 0; VFloat ?x]) (VDict []) => fold blankA; rewrite (Angle_new_sec x)
-  | Angle___init__ _ _ (VTuple [VFloat ?x]) (VDict []) => fold blankA; rewrite (Angle_new_deg x)
-  | Angle___init__ _ _ (VTuple [VFloat ?x]) (VDict [(VStr "radians", VBool true)]) =>
-      fold blankA; rewrite (Angle_new_rad x)
-  | Angle___init__ _ _ (VTuple [VFloat ?x]) (VDict [kw "radians" (VBool true)]) =>
-      fold blankA; rewrite (Angle_new_rad_kw x)
-  | g_JDE2000 _ => match goal with HJ : g_JDE2000 Rops = _ |- _ => rewrite HJ end
-  end.
-Ltac sqsum :=
-  lazymatch goal with
-  | |- _ <= ?x * ?x + ?y * ?y =>
-      apply Rplus_le_le_0_compat; [exact (Rle_0_sqr x) | exact (Rle_0_sqr y)]
-  end.
-Ltac dec2 := first [ assumption | sqsum | Rlit_norm_all; zfold; lra ].
-Ltac pyrun2 := pyrunH_using ltac:(hook2 dec2) dec2.
-
-Lemma L100_eq : Rlit 1000 (-1) = 100.
-Proof. Rlit_norm. lra. Qed.
-
-(* bring the Horner-form expression [e] the code computes to the spec polynomial [p] *)
-Ltac poly_to e p :=
-  replace e with p by (unfold zeta_as, z_as, theta_as, nzeta_as, nz_as, ntheta_as, cen, tropcen,
-                         B1900; Rlit_norm; dec_norm; field).
 
 Theorem equ_closed J j0 j1 a0 d0 ma md : g_JDE2000 Rops = ep J ->
   let T := cen J j0 in let t := cen j0 j1 in
@@ -65,6 +22,27 @@ Proof.
       lazymatch e with
       | zeta_as _ _ => fail | z_as _ _ => fail | theta_as _ _ => fail
       | _ => first [ poly_to e (zeta_as T t) | poly_to e (z_as T t) | poly_to e (theta_as T t) ]
+      end
+  end.
+  reflexivity.
+Qed.
+
+Theorem newcomb_closed j0 j1 a0 d0 ma md :
+  let T := tropcen B1900 j0 in let t := tropcen j0 j1 in
+  let o := equ_out (nzeta_as T t) (nz_as T t) (ntheta_as T t) (pm_start a0 ma t) (pm_start d0 md t) in
+  f_precession_newcomb Rops (ep j0) (ep j1) (ang a0) (ang d0) (ang ma) (ang md)
+  = VTuple [ang (fst o); ang (snd o)].
+Proof.
+  intros T t o. pyrun2.
+  rewrite L100_eq.
+  replace ((j1 - j0) / Rlit 365242199 (-4)) with t by (unfold t, tropcen; Rlit_norm; dec_norm; field).
+  replace ((j0 - Rlit 24150203135 (-4)) / Rlit 365242199 (-4)) with T
+    by (unfold T, tropcen, B1900; Rlit_norm; dec_norm; field).
+  repeat match goal with
+  | |- context [dms_sec ?e] =>
+      lazymatch e with
+      | nzeta_as _ _ => fail | nz_as _ _ => fail | ntheta_as _ _ => fail
+      | _ => first [ poly_to e (nzeta_as T t) | poly_to e (nz_as T t) | poly_to e (ntheta_as T t) ]
       end
   end.
   reflexivity.
